@@ -3,6 +3,7 @@ pub mod core;
 pub mod der;
 pub mod keys;
 pub mod model;
+pub mod serde_tok;
 pub mod c09_deltas;
 pub mod c09_gen;
 pub mod c09_hostile;
